@@ -31,6 +31,7 @@ pub(crate) fn is_start_of_declarative_part(token_kind: TokenKind) -> bool {
                 | Kw::Procedure
                 | Kw::Package
                 | Kw::For
+                | Kw::Disconnect
                 | Kw::View
                 | Kw::Begin
         )
@@ -63,6 +64,7 @@ impl Parser {
                 }
                 Keyword(Kw::Package) => self.package_instantiation_declaration(),
                 Keyword(Kw::For) => self.configuration_specification(),
+                Keyword(Kw::Disconnect) => self.disconnection_specification(),
                 Keyword(Kw::File) => self.file_declaration(),
                 Keyword(Kw::Shared | Kw::Variable) => self.variable_declaration(),
                 Keyword(Kw::Constant) => self.constant_declaration(),
@@ -81,6 +83,7 @@ impl Parser {
                         Keyword(Kw::Procedure),
                         Keyword(Kw::Package),
                         Keyword(Kw::For),
+                        Keyword(Kw::Disconnect),
                         Keyword(Kw::File),
                         Keyword(Kw::Shared),
                         Keyword(Kw::Variable),
@@ -135,6 +138,28 @@ impl Parser {
         }
     }
 
+    pub fn disconnection_specification(&mut self) {
+        self.start_node(DisconnectionSpecification);
+        self.expect_kw(Kw::Disconnect);
+        self.guarded_signal_specification();
+        self.expect_kw(Kw::After);
+        self.expression();
+        self.expect_token(SemiColon);
+        self.end_node();
+    }
+
+    pub fn guarded_signal_specification(&mut self) {
+        self.start_node(GuardedSignalSpecification);
+        match self.peek_token() {
+            Keyword(Kw::All) => self.skip_into_node(SignalListAll),
+            Keyword(Kw::Others) => self.skip_into_node(SignalListOthers),
+            _ => self.separated_list(SignalListList, Parser::name, Comma),
+        }
+        self.expect_token(Colon);
+        self.type_mark();
+        self.end_node();
+    }
+
     pub fn component_specification(&mut self) {
         self.start_node(NodeKind::ComponentSpecification);
         match_next_token!(self,
@@ -182,5 +207,56 @@ package ident is new lib.foo.bar
     foo => bar
   );",
         ));
+    }
+
+    #[test]
+    fn disconnection_specification() {
+        assert_eq!(
+            to_test_text(
+                Parser::declarations,
+                "disconnect s, t : bit after 1 ns; disconnect others : bit after dly;"
+            ),
+            "\
+Declarations
+  DisconnectionSpecification
+    Keyword(Disconnect)
+    GuardedSignalSpecification
+      SignalListList
+        Name
+          NameDesignatorPrefix
+            Identifier 's'
+        Comma
+        Name
+          NameDesignatorPrefix
+            Identifier 't'
+      Colon
+      Name
+        NameDesignatorPrefix
+          Identifier 'bit'
+    Keyword(After)
+    PhysicalLiteralExpression
+      PhysicalLiteral
+        AbstractLiteral '1'
+        Name
+          NameDesignatorPrefix
+            Identifier 'ns'
+    SemiColon
+  DisconnectionSpecification
+    Keyword(Disconnect)
+    GuardedSignalSpecification
+      SignalListOthers
+        Keyword(Others)
+      Colon
+      Name
+        NameDesignatorPrefix
+          Identifier 'bit'
+    Keyword(After)
+    NameExpression
+      Name
+        NameDesignatorPrefix
+          Identifier 'dly'
+    SemiColon
+"
+        );
     }
 }
